@@ -709,6 +709,85 @@ pub unsafe extern "C" fn openat(d: c_int, path: *const libc::c_char, flags: c_in
     do_open(d, path, flags, mode)
 }
 
+/// rename / unlink of tracked paths: the path table follows the file (descriptors that are
+/// already open keep their file, as in the kernel). jammdb does neither today; a change that
+/// builds a file aside and renames it into place stays inside the simulation this way.
+unsafe fn path_tracked(p: *const libc::c_char) -> Option<Vec<u8>> {
+    if !ACTIVE.load(Ordering::Relaxed) || bypassed() || p.is_null() {
+        return None;
+    }
+    let pb = cstr_bytes(p).to_vec();
+    if with(|s| !s.prefix.is_empty() && pb.starts_with(&s.prefix)) {
+        Some(pb)
+    } else {
+        None
+    }
+}
+
+unsafe fn do_rename(od: c_int, old: *const libc::c_char, nd: c_int, new: *const libc::c_char, flags: c_uint) -> c_int {
+    let (a, b) = (path_tracked(old), path_tracked(new));
+    if a.is_some() || b.is_some() {
+        maybe_yield();
+    }
+    let r = libc::syscall(libc::SYS_renameat2, od, old, nd, new, flags) as c_int;
+    if r == 0 {
+        with(|s| {
+            s.total_calls += 1;
+            let moved = a.as_ref().and_then(|a| s.paths.remove(a));
+            if let Some(b) = &b {
+                s.paths.remove(b);
+                if let Some(fid) = moved {
+                    s.files[fid as usize].path = b.clone();
+                    s.paths.insert(b.clone(), fid);
+                }
+            }
+        });
+    }
+    r
+}
+
+#[no_mangle]
+pub unsafe extern "C" fn rename(old: *const libc::c_char, new: *const libc::c_char) -> c_int {
+    do_rename(libc::AT_FDCWD, old, libc::AT_FDCWD, new, 0)
+}
+
+#[no_mangle]
+pub unsafe extern "C" fn renameat(od: c_int, old: *const libc::c_char, nd: c_int, new: *const libc::c_char) -> c_int {
+    do_rename(od, old, nd, new, 0)
+}
+
+#[no_mangle]
+pub unsafe extern "C" fn renameat2(od: c_int, old: *const libc::c_char, nd: c_int, new: *const libc::c_char, flags: c_uint) -> c_int {
+    do_rename(od, old, nd, new, flags)
+}
+
+unsafe fn do_unlink(d: c_int, p: *const libc::c_char, flags: c_int) -> c_int {
+    let a = path_tracked(p);
+    if a.is_some() {
+        maybe_yield();
+    }
+    let r = libc::syscall(libc::SYS_unlinkat, d, p, flags) as c_int;
+    if r == 0 {
+        if let Some(a) = a {
+            with(|s| {
+                s.total_calls += 1;
+                s.paths.remove(&a);
+            });
+        }
+    }
+    r
+}
+
+#[no_mangle]
+pub unsafe extern "C" fn unlink(p: *const libc::c_char) -> c_int {
+    do_unlink(libc::AT_FDCWD, p, 0)
+}
+
+#[no_mangle]
+pub unsafe extern "C" fn unlinkat(d: c_int, p: *const libc::c_char, flags: c_int) -> c_int {
+    do_unlink(d, p, flags)
+}
+
 #[no_mangle]
 pub unsafe extern "C" fn close(fd: c_int) -> c_int {
     if tracked(fd) {
